@@ -227,20 +227,21 @@ Section WithSimplifier.
     if existsb (fun l => ctrue l || term_eqb l tl) c then None
     else Some (filter (fun l => negb (term_eqb l ntl) && negb (cfalse l)) c).
 
+  (* the clean-up leaves no literal of the clause: "if len(simp) == 0: return FALSE_CNF" *)
+  Definition has_emptied (tl : term) (cl : list clause) : bool :=
+    existsb (fun c => match clean_clause tl (neg_lit tl) c with Some [] => true | _ => false end) cl.
+
+  (* the loop returns FALSE_CNF at the first clause that is empty or becomes empty (whatever the
+     iteration order of the frozenset), skips pruned clauses and keeps the others *)
   Definition cleanup (tl : term) (cl : list clause) : list clause :=
     match cl with
     | [] => [[tl]]
-    | _ => if existsb is_nil cl then [[]]
+    | _ => if existsb is_nil cl || has_emptied tl cl then [[]]
            else flat_map (fun c => match clean_clause tl (neg_lit tl) c with
-                                   | Some (x :: r) => [x :: r]     (* "if simp:" *)
-                                   | _ => []
+                                   | Some (x :: r) => [x :: r]
+                                   | _ => []           (* "if simp is None: continue" *)
                                    end) cl
     end.
-
-  (* some clause was emptied by the clean-up and then dropped by "if simp:" *)
-  Definition emptied (tl : term) (cl : list clause) : bool :=
-    negb (existsb is_nil cl) &&
-    existsb (fun c => match clean_clause tl (neg_lit tl) c with Some [] => true | _ => false end) cl.
 
   Definition convert_with (walk : term -> cstate -> option (res * cstate)) (f : term) (st : cstate)
     : option (list clause * cstate) :=
@@ -248,14 +249,7 @@ Section WithSimplifier.
     | Some (R tl cl, st') => Some (cleanup tl cl, st')
     | _ => None
     end.
-  Definition emptied_with (walk : term -> cstate -> option (res * cstate)) (f : term) (st : cstate) : bool :=
-    match walk f st with
-    | Some (R tl cl, _) => emptied tl cl
-    | _ => false
-    end.
-
   Definition cnf_convert := convert_with cnf_walk.
-  Definition cnf_emptied := emptied_with cnf_walk.
 
   (* convert_as_formula: And over the frozenset of clauses of Or over each frozenset of literals *)
   Definition mk_and (l : list term) : term := match l with [] => TTrue | [x] => x | _ => T OAnd l end.
@@ -397,7 +391,6 @@ Section WithSimplifier.
     end.
 
   Definition pol_convert := convert_with (fun f st => pol_walk f true st).
-  Definition pol_emptied := emptied_with (fun f st => pol_walk f true st).
 End WithSimplifier.
 
 (* the simplifier given as the finite table of the implementation's answers (correspondence) *)
